@@ -847,6 +847,13 @@ def run_recipe(recipe):
             out["compile_err"] = f"{type(e).__name__}: {str(e)[:300]}"
             return out
         out.update(text=text, seen=seen)
+        if "exec_text" not in seen or "constants" not in seen:
+            # the compiler handed back an object without executing any text during this compilation: whatever it returned
+            # was not made from the text it reports for this graph (e.g. a function kept from an earlier compilation, bound
+            # to that compilation's constants)
+            out["diffs"].append(("text", "compile() returned an object without executing the text it reports (exec was not called during this compilation)",
+                                 {"eval_code": seen.get("eval_code"), "history": "an earlier compilation in this process produced the same text"}))
+            return out
         # the compiler has exec'd the text itself: forget what that logged
         rt_gen.effects.clear()
         rt_gen.pure.clear()
@@ -1201,6 +1208,51 @@ def adapter_graphs(ctx):
             tstr(ctx, rec["compiled_graph"], rec["code"], "adapter: " + label)
             ctx.case("adapter:" + label, True)
             ctx.count("family:adapter")
+    # Two operations whose generated TEXT is identical but whose constants differ (user callables with the same repr and
+    # different state): each call must run the text of its own graph with its own constants, and the text returned with
+    # graph=True, executed with the constants it announces, must give the same result.
+    class Layer:
+        def __init__(self, w):
+            self.w = w
+
+        def __call__(self, t, axis=None):
+            return np.sum(t, axis=axis) * self.w
+
+        def __repr__(self):
+            return "Layer()"
+    Layer.__name__ = "Layer"
+    for w in (2.0, -3.0, 0.5):
+        lay = Layer(w)
+        try:
+            with warnings.catch_warnings():
+                warnings.simplefilter("ignore")
+                op = einx.numpy.adapt_numpylike_reduce(lay)
+                with hooked_compiler() as seen:
+                    got = op("a [b]", x)
+                text = op("a [b]", x, graph=True)
+        except Exception as e:
+            ctx.count("adapter-raised:" + type(e).__name__)
+            continue
+        ctx.count("adapter:same-text-different-constants")
+        want = x.sum(axis=1) * w
+        problems = []
+        if not np.allclose(np.asarray(got), want):
+            problems.append(f"the call returned {np.asarray(got).tolist()} instead of {want.tolist()} (computed with another operation's constants)")
+        announced = re.findall(r"^# Constant (\w+): ", text, flags=re.M)
+        ns = {k: v for k, v in seen.get("constants", {}).items() if k in announced}
+        if "exec_text" in seen:
+            try:
+                builtins.exec(text, ns, ns)
+                ev = seen.get("eval_code", "op")
+                if ev in ns and not np.allclose(np.asarray(ns[ev](x)), np.asarray(got)):
+                    problems.append("the returned text, executed with the constants it announces, computes a different result than the call")
+            except Exception as e:
+                problems.append(f"exec of the text fails: {type(e).__name__}: {e}")
+        if problems:
+            ctx.violation(f"history: adapt_numpylike_reduce(Layer(w)) for w = 2.0, -3.0, 0.5 on 'a [b]' (equal generated text, different constants); failing w={w}",
+                          {"kind": "an operation whose text equals the text of an earlier operation is executed with the earlier operation's constants",
+                           "w": w, "problems": problems, "text": text})
+            break
 
 
 def run(ctx):
